@@ -248,12 +248,13 @@ def harness_solution(f, tau, X, admittance, add_c, add_l):
     return np.linalg.lstsq(A / n, b, rcond=None)[0] / n
 
 
-def placeholder_artefact(f, Z, test, admittance, add_c):
+def placeholder_artefact(f, Z, test, admittance, add_c, var=None, add_l=True):
     """Size (relative to |Z|) of the error that the hard-coded placeholder constants of the matrix-inversion tests leave
     in their result (matrix_inversion._real_test / _update_circuit; the later stage subtracts the placeholder's
     response from the data and its coefficient REPLACES the placeholder, so the final value is off by the placeholder):
       real-inv:       1/C (Z) resp. C (Y) parked at 1e-18; for Y the inductance at -1e18 H
       imaginary-inv:  for Y the parallel resistance parked at 1e18 ohm (its column is zero in the imaginary system)
+      any -inv on Y:  a fitted 1/R or 1/L of exactly 0.0 is replaced by 1e18 ohm / -1e18 H (absent elements only)
     """
     w = 2 * np.pi * np.asarray(f, dtype=float)
     aZ = np.abs(np.asarray(Z))
@@ -267,6 +268,15 @@ def placeholder_artefact(f, Z, test, admittance, add_c):
             a = float(1e-18 * (1.0 / (w * aZ)).max())
     elif test == "imaginary-inv" and admittance:
         a = float(1e-18 * aZ.max())
+    # zero-substitution in matrix_inversion._update_circuit (admittance only): a fitted 1/R or -1/L that comes out as
+    # exactly 0.0 is replaced by R = 1e18 ohm resp. L = -1e18 H.  That can only happen when the element is absent from
+    # the spectrum (generating variable exactly zero; var = generating variables in basis order); upper bound of its effect:
+    if var is not None and admittance and test.endswith("-inv"):
+        var = np.asarray(var, dtype=float)
+        if var[0] == 0.0:
+            a = max(a, float(1e-18 * aZ.max()))
+        if add_l and var[-1] == 0.0:
+            a = max(a, float(1e-18 * (aZ / w).max()))
     return a
 
 
